@@ -408,6 +408,25 @@ theorem seeded_load_written_register_named :
       (setOf (Gen.cfg false false) i).map (·.1)))) = .ok ⟨2, 0⟩ := by
   decide +kernel
 
+/-- the program of seeded change C08_22 (straight-line form): `Q0` is `set` once to 0; its qubit is
+allocated, used, freed and allocated again; then `mov Q1 Q0` WITHOUT a new `set`. `qalloc`, `init`,
+`y`, `qfree` do not write `Q0`, so inside `QStatic` the window stays open (`K … 10 Q0 = some 0`), the
+pass still knows the value and emits the carbon→electron circuit (6 instructions, electron-controlled
+rotations). A pass that forgot the value at `qfree` would take the unknown-ids fallback — the
+electron→carbon circuit (4 instructions) with a CARBON as control. -/
+theorem seeded_value_persists_across_qfree :
+    let S : List Instr := [
+      ⟨"core.SetInstruction", [qreg 0, .imm 0]⟩, ⟨"core.SetInstruction", [qreg 1, .imm 1]⟩,
+      ⟨"core.QAllocInstruction", [qreg 1]⟩, ⟨"core.InitInstruction", [qreg 1]⟩,
+      ⟨"core.QAllocInstruction", [qreg 0]⟩, ⟨"core.InitInstruction", [qreg 0]⟩,
+      ⟨"vanilla.GateYInstruction", [qreg 0]⟩, ⟨"core.QFreeInstruction", [qreg 0]⟩,
+      ⟨"core.QAllocInstruction", [qreg 0]⟩, ⟨"core.InitInstruction", [qreg 0]⟩,
+      ⟨"vanilla.MovInstruction", [qreg 1, qreg 0]⟩]
+    QStatic (Gen.cfg false false) S = true ∧ K (Gen.cfg false false) S 10 ⟨2, 0⟩ = some 0 ∧
+    (transpile (Gen.cfg false false) S).toOption.map (fun o => (o.length, o[11]?)) =
+      some (16, some ⟨"nv.ControlledRotYInstruction", [qreg 0, qreg 1, .imm 24, .imm 4]⟩) := by
+  decide +kernel
+
 /-- **transpile_simulates (partial: under `QStatic`)**. Every finite execution of the vanilla
 subroutine from `s0` to `(pc, s)` is matched by an execution of the serialised NV subroutine from
 the same `s0` to `(index_changes pc, u)` — pc correspondence through the index map — with
